@@ -150,23 +150,30 @@ def run_mode(ctx, mode):
         jobs.append((f"G{gi}", segs, [(f"w{wi}", w) for wi, w in enumerate(walks)], mode, "bgzf" if gi % 3 == 2 else "plain", gi % 5 == 4))
     njobs_enum = len(jobs)
     jobs += random_graph_jobs(rnd, 60 if not ctx.thorough else 600, mode)
-    res = pool_map(run_graph, jobs, chunk=2)
-    cases = [c for cs in res for c in cs]
-    ctx.evaluations += sum(len(c["recs"]) for c in cases)
-    for c in cases:
-        if len(c["walk"]) > 3 or "<" in c["walk"]:
-            ctx.nontrivial.add((str(sorted(c["segs"].items())), c["walk"]))
-    verdicts = ctx.validate("Check_Coords", cases, cfg="Check_Coords.cfg")
-    for c in cases:
-        v = verdicts[c["id"]]
-        if v != "ok":
-            bad = dict(c)
-            bad["recs"] = bad["recs"][:40]
-            ctx.violation(v, bad)
+    # process in slices so that a thorough run (hundreds of thousands of (graph, walk) cases) stays within memory
+    samples = []
+    step = 120
+    for a in range(0, len(jobs), step):
+        res = pool_map(run_graph, jobs[a : a + step], chunk=2)
+        cases = [c for cs in res for c in cs]
+        ctx.evaluations += sum(len(c["recs"]) for c in cases)
+        for c in cases:
+            if len(c["walk"]) > 3 or "<" in c["walk"]:
+                ctx.nontrivial.add(hash((str(sorted(c["segs"].items())), c["walk"])))
+        verdicts = ctx.validate("Check_Coords", cases, cfg="Check_Coords.cfg")
+        for c in cases:
+            v = verdicts[c["id"]]
+            if v != "ok":
+                bad = dict(c)
+                bad["recs"] = bad["recs"][:40]
+                ctx.violation(v, bad)
+        if len(samples) < 3 and cases:
+            samples.append(cases[len(cases) // 2])
+        del cases, res
     ctx.exhaustive = True
     ctx.notes["enumerated_graphs"] = njobs_enum
     ctx.notes["random_graphs"] = len(jobs) - njobs_enum
-    for c in cases[:: max(1, len(cases) // 3)][:3]:
+    for c in samples:
         if c["recs"]:
             q = c["recs"][len(c["recs"]) // 2]
             ctx.sample({"segs": c["segs"], "walk": c["walk"], "u": q["u"], "s": q["s"], "u2": q["u2"]})
